@@ -183,7 +183,7 @@ func (w *world) checkCrashImage(seq *Seq, k, opIdx int, img db.KeyValueStore) {
 	evOK, evWhat := eventsOK(fresh, img, w.lo)
 	initWrote := probe.Count() > 0
 	if initWrote {
-		c.Hist["fresh-process-init-wrote-a-window(unmodelled)"]++
+		c.Hist["fresh-process-init-wrote-a-window"]++
 	}
 	c.Count(fmt.Sprintf("crash/%s/%v/%v/%s", kind, seq.NewState, seq.Boundary, seq.Engine), opIdx >= 0)
 	c.Hist["crash-image-during:"+kind]++
@@ -221,7 +221,7 @@ func (w *world) checkCrashImage(seq *Seq, k, opIdx int, img db.KeyValueStore) {
 	if (mflags[1] == "1") != (nsErr == nil) {
 		c.Violation("model-mismatch:recover-ready", what+fmt.Sprintf("model recover_ready=%s, next store error=%v", mflags[1], nsErr), cs, true)
 	}
-	if (mflags[2] == "1") != evOK && !(initWrote && !evOK) {
+	if (mflags[2] == "1") != evOK {
 		c.Violation("model-mismatch:index-covers", what+fmt.Sprintf("model index_covers=%s, events ok=%v %s", mflags[2], evOK, evWhat), cs, true)
 	}
 }
